@@ -10,6 +10,9 @@ CHECKS = {
  "C02": ("exploration", "differential monitoring: reorged node vs linear twin vs pure ledger, byte-level served views",
          "Complete served views (tip state, index, stored blocks with supplements, element buckets incl. expiration lists, served elements with Merkle proofs, window ids, next block's expiring contracts) of a node driven through forks, reorgs and failed reorgs are compared byte for byte with a fresh node fed the final best chain linearly, at PRNG-chosen points of generated histories in all regimes, for checkpoint-initialised stores, and in the dedicated expiration-order scenario (known finding KF-C02-1).",
          "Tree-bucket nodes beyond the leaf count are excluded (never read by contract; served proofs are compared instead); v1 contracts get distinct window ends outside the order scenarios.", "§3 C02"),
+ "C03": ("fault_enumeration", "crash-point enumeration: every durable commit image reopened and audited, catch-up run compared with the uninterrupted run",
+         "With hook H1 the store commits after every individual block apply/revert of generated histories (and, in other runs, only at its natural commit points); the shadow KV snapshots the durable image at every Flush tagged with the store's tip; every snapshot is reopened on a fresh backend and must reopen without error to exactly that tip and pass the chain audit and the element/proof audit against the pure ledger; for snapshots inside reorgs (up to 8 per history) and 4 PRNG ones the whole schedule is re-submitted and final tip and complete served view must equal the uninterrupted run's when the final tip is forced.",
+         "The backend's own commit is assumed atomic (MemDB image; bbolt trusted); every commit boundary the store can produce is a crash point, torn writes inside a commit are not modelled.", "§3 C03"),
  "C04": ("exploration", "update-stream monitoring: per-poll contiguity oracle, shadow ledger folded from diffs vs pure ledger, porcupine on reached-tip polls, race detector",
          "A population of subscribers (chunk sizes 1,2,3,7,1000,PRNG; lagging ones end up on abandoned branches) follows generated histories with reorgs and rolled-back reorgs; every UpdatesSince result is checked for bound, reverts-first contiguity and pure states; folded diffs + UpdateElementProof must reproduce the pure ledger of the tip (sets, leaf indices, proofs verifying against the accumulator); ceil(path/max) polls must reach the tip; OnReorg is checked per call (invoked iff tip changed, with the new tip). Concurrent pollers vs a submitter run under -race and their reached-tip polls are checked for linearizability against a register model of the tip.",
          "Subscribers only start from nothing or from indices they reached themselves; pruned stores are C19's business.", "§3 C04"),
